@@ -29,7 +29,7 @@ class Explorer(object):
     def __init__(self):
         self.active = False
         self.script = {}
-        self.trace = []        # [(n, site)] one entry per observed iteration of a set with n >= 2
+        self.trace = []        # [(n, 'file.py:function', line)] per observed iteration of a set with n >= 2
         self.small = 0         # iterations of sets with < 2 elements (no choice)
         self.created = 0       # ChoiceSet instances created while active
         self.applied = 0
@@ -51,8 +51,8 @@ class Explorer(object):
         (tuple of indices into the base order) or None for the default order."""
         k = len(self.trace)
         f = sys._getframe(depth)
-        site = '%s:%d' % (os.path.basename(f.f_code.co_filename), f.f_lineno)
-        self.trace.append((n, site))
+        site = '%s:%s' % (os.path.basename(f.f_code.co_filename), f.f_code.co_name)
+        self.trace.append((n, site, f.f_lineno))
         p = self.script.get(k)
         if p is None:
             return None
@@ -525,10 +525,10 @@ def explore(execute, max_dev, ref_trace, first=None, full_upto=4):
         stack.extend(reversed(children))
 
 
-def count_bound(trace_len_sizes, max_dev):
+def count_bound(trace_len_sizes, max_dev, full_upto=4):
     """Number of executions explore() performs if no deviation changes the trace
     (reported next to the measured number)."""
-    sizes = [len(deviations(n)) for n in trace_len_sizes]
+    sizes = [len(deviations(n, full_upto)) for n in trace_len_sizes]
     total = 0
 
     def rec(i, left):
@@ -539,5 +539,5 @@ def count_bound(trace_len_sizes, max_dev):
                 t += sizes[k] * rec(k + 1, left - 1)
         return t
     if max_dev >= 1:
-        total = rec(0, max_dev)
+        total = rec(0, min(max_dev, len(sizes)))
     return total
